@@ -448,6 +448,18 @@ def run(ctx):
                                                  np.array(net.adjacency).tolist()), n))
             ctx.count("random-walk-correspondence")
             rw_splits = 0
+        # round 5: nsi_eigenvector_centrality -- the vector the implementation returns goes
+        # through the exact model (Model/NsiEig.lean): matrix-vector product, eigen-residual,
+        # normalisation, positivity and connectivity (the hypotheses of
+        # `nsi_eigenvector_centrality_split`)
+        ec0 = finite_vec(base_impl.get("nsi_eigenvector_centrality@oracle"), n)
+        do_eig = (not directed) and ec0 is not None
+        if do_eig:
+            reqs.append(request("eig", net, Wroot, g0, g1, extra=f"{enc_rats(ec0)} "))
+            meta.append(("eig", gi, None, None, (ec0, adj_times_w(net, ec0)), n))
+            eig_base = len(reqs) - 1
+            eig_splits = 0
+            ctx.count("eigenvector-correspondence")
         for v in nodes:
             for p in props:
                 nontriv = n >= 3 and A.sum() > 0
@@ -500,6 +512,20 @@ def run(ctx):
                                         extra=f"{RW_TERMS} {v} {enc_rat(p)} "))
                     meta.append(("rwsplit", gi, v, p, len(reqs) - 2, n + 1))
                     ctx.count("random-walk-correspondence-on-split")
+                if do_eig and eig_splits < (1 if quick else 2):
+                    # (a) the model's own split with the pulled-back vector: every output is the
+                    # exact pull-back of the output on the original (`eig_pullback`);
+                    # (b) the vector the implementation returns for its split copy
+                    eig_splits += 1
+                    reqs.append(request("eigsplit", net, Wroot, g0, g1,
+                                        extra=f"{v} {enc_rat(p)} {enc_rats(ec0)} "))
+                    meta.append(("eigsplit", gi, v, p, eig_base, n + 1))
+                    ec1 = finite_vec(sp_impl.get("nsi_eigenvector_centrality@oracle"), n + 1)
+                    if ec1 is not None:
+                        reqs.append(request("eig", sp, sWroot, sg0, sg1,
+                                            extra=f"{enc_rats(ec1)} "))
+                        meta.append(("eig", gi, v, p, (ec1, adj_times_w(sp, ec1)), n + 1))
+                    ctx.count("eigenvector-correspondence-on-split")
                 if do_betw:
                     nsplit += 1
                     for ist, (SS, TT) in enumerate(ST):
@@ -612,10 +638,28 @@ def run(ctx):
     model = common.driver(ctx.pid, reqs)
     bad_split, bad_eval, bad_betw, nvals, nbetw = [], [], [], 0, 0
     bad_rw, nrw = [], 0
+    bad_eig, neig, eig_stats = [], 0, {"resid": 0.0}
     for ans, (kind, gi, v, p, impl, n) in zip(model, meta):
         if kind == "rw":
             nrw += 1
             bad_rw += check_rw(ctx, ans, impl, n, f"graph#{gi} split={v},{p}")
+            continue
+        if kind == "eig":
+            neig += 1
+            bad_eig += check_eig(ans, impl, n, f"graph#{gi} split={v},{p}", eig_stats)
+            continue
+        if kind == "eigsplit":
+            neig += 1
+            b, a = parse_betw(model[impl]), parse_betw(ans)
+            for key in ("ax", "resid", "norm"):
+                bl = b.get(key, "").split(",")
+                if len(bl) != n - 1 or a.get(key) != ",".join(bl + [bl[v]]):
+                    bad_eig.append(f"graph#{gi} split={v},{p}: `{key}` on the model's split with "
+                                   f"the pulled-back vector is not the pull-back: "
+                                   f"{a.get(key, '')[:100]} / {b.get(key, '')[:100]}")
+            if (a.get("pos"), a.get("conn")) != (b.get("pos"), b.get("conn")):
+                bad_eig.append(f"graph#{gi} split={v},{p}: positivity / connectivity flags of "
+                               f"the model's split differ from the original")
             continue
         if kind == "rwsplit":
             nrw += 1
@@ -678,8 +722,66 @@ def run(ctx):
                    f"split copies and the model's own split; hypotheses SolvesL/SolvesR/"
                    f"ArenasSolves of the theorems hold exactly for the computed inverses "
                    f"({nrw} requests)", "correspondence", not bad_rw, "\n".join(bad_rw[:6]))
+    ctx.obligation(f"correspondence: nsi_eigenvector_centrality -- the vector the implementation "
+                   f"returns (network and split copy) is positive, fixed by the modelled "
+                   f"normalisation (exact), an eigenvector of the exact model of sp_Aplus * "
+                   f"sp_diag_w up to 1e-7 (largest relative residual seen "
+                   f"{eig_stats['resid']:.1e}), on a network the model's BFS finds connected; "
+                   f"model matrix-vector product == the library's sparse product; on the model's "
+                   f"own split every output is the exact pull-back ({neig} requests)",
+                   "correspondence", not bad_eig, "\n".join(bad_eig[:6]))
     ctx.extra["values_compared"] = nvals
     extras(ctx)
+
+
+def finite_vec(vals, n):
+    """the implementation's vector as exact rationals, or None (not computed / raised / not finite)"""
+    if not isinstance(vals, list) or len(vals) != n:
+        return None
+    if not all(x == x and abs(x) != float("inf") for x in vals):
+        return None
+    return [Fraction(x) for x in vals]
+
+
+def adj_times_w(net, x):
+    """(sp_Aplus * sp_diag_w) @ x as the library builds the matrices"""
+    M = net.sp_Aplus() * net.sp_diag_w()
+    return np.asarray(M @ np.array([float(t) for t in x])).reshape(-1).tolist()
+
+
+EIG_TOL = 1e-7     # relative eigen-residual accepted for the ARPACK vector (tol=1e-8 in the code)
+
+
+def check_eig(ans, impl_pack, n, where, stats):
+    """one `eig` answer of the driver against the vector the implementation returned"""
+    x, ax_impl = impl_pack
+    mb = parse_betw(ans)
+    bad = []
+
+    def rats(key):
+        v = mb.get(key, "-")
+        return [] if v == "-" else [Fraction(t) for t in v.split(",")]
+    if mb.get("pos") != "1":
+        bad.append(f"{where}: nsi_eigenvector_centrality of a connected network is not positive: "
+                   f"{[float(t) for t in x]}")
+    if mb.get("conn") != "1":
+        bad.append(f"{where}: igraph finds all pairs connected, the model's BFS does not")
+    if mb.get("norm") != enc_rats(x):
+        bad.append(f"{where}: the returned vector is not a fixed point of `ec *= sign(ec[0]); "
+                   f"ec / ec.max()` (model: {mb.get('norm', '')[:120]})")
+    ax = rats("ax")
+    scale = max([abs(float(t)) for t in ax] + [1e-300])
+    if len(ax) != n or not all(abs(float(a) - b) <= 1e-12 * scale for a, b in zip(ax, ax_impl)):
+        bad.append(f"{where}: model (A+ Dw) x = {[float(t) for t in ax]} but sp_Aplus * sp_diag_w "
+                   f"@ x = {ax_impl}")
+    resid = rats("resid")
+    xs = max(float(t) for t in x)
+    rel = max([abs(float(r)) for r in resid] + [0.0]) / (scale * max(xs, 1e-300))
+    stats["resid"] = max(stats["resid"], rel)
+    if rel > EIG_TOL:
+        bad.append(f"{where}: the returned vector is not an eigenvector of the n.s.i. adjacency "
+                   f"matrix: relative residual {rel:.3e}")
+    return bad
 
 
 RW_TERMS = 60      # terms of the exponential series of nsi_spreading sent by the model
